@@ -2,10 +2,12 @@
    Only statements, closed by [exact], with [Print Assumptions] beneath each.
    [merge] (C19/Spec.v) is written from the Decode documentation; [dec_refl], [dec_fast],
    [dec_builtin] (C19/Model.v) mirror the three implementations; [dec_impl] picks the one the
-   build uses.  The full-strength statements for nested types are tied to the implementation
-   by correspondence and by the harness oracle only (see the _partial names). *)
+   build uses.  Universe: int, string, pointers, slices, string-keyed maps, structs, interface{}
+   holding nil / int64 / string; every theorem below quantifies over ALL types of that universe,
+   all destinations (no well-typedness is assumed), all stream items and all option vectors. *)
 From Coq Require Import List NArith ZArith Arith Bool Lia.
-From Verif Require Import Base.Outcome Wire.Item C19.Spec C19.Model C19.Proofs.
+From Verif Require Import Base.Outcome Wire.Item C19.Spec C19.Model C19.Loops C19.Proofs
+     C19.ProofsMerge C19.ProofsPaths C19.ProofsKeep C19.ProofsIdem C19.ProofsTop.
 Import ListNotations.
 
 (* NIL: a nil decoded into ANY type with ANY previous content — at the top level, as a slice
@@ -34,12 +36,24 @@ Theorem C19_nil_field_refuted : exists t d, field_nil t d <> zero_of t.
 Proof. exact field_nil_refuted. Qed.
 Print Assumptions C19_nil_field_refuted.
 
-(* MERGE: the implementation is the documented merge on scalars (all options, all previous
-   contents); the full statement is false (F19-1) *)
-Theorem C19_merge_partial : forall (o : dopts) (t : ty) (d : gv) (it : item),
-  scalar_ty t -> dec_builtin t d it = merge o t d it.
-Proof. exact builtin_is_merge. Qed.
-Print Assumptions C19_merge_partial.
+(* MERGE: for every type, destination, stream item and option vector, what the build's decoder
+   leaves in the destination is the documented merge — outside the two recorded defect classes,
+   excluded by boolean guards:
+     nil_ok t it       no stream nil is aimed at a struct field of POINTER type (F19-1; the guard
+                       is on type and stream only, so it also excludes the harmless case where
+                       that field currently holds a nil pointer);
+     paths_guard fp o t  not (fast paths compiled in, SliceElementReset set, a []interface{}
+                       somewhere in t)   (F19-2) *)
+Theorem C19_merge : forall (fp : bool) (o : dopts) (t : ty) (d : gv) (it : item),
+  nil_ok t it = true -> paths_guard fp o t = true ->
+  dec_impl fp o t d it = merge o t d it.
+Proof. exact merge_top. Qed.
+Print Assumptions C19_merge.
+
+Theorem C19_impl_is_reflection : forall (fp : bool) (o : dopts) (t : ty) (d : gv) (it : item),
+  dec_impl fp o t d it = dec_refl fp o t d it.
+Proof. exact impl_is_refl. Qed.
+Print Assumptions C19_impl_is_reflection.
 
 Definition C19_merge_full_statement : Prop :=
   forall fp o t d it, dec_impl fp o t d it = merge o t d it.
@@ -47,19 +61,50 @@ Theorem C19_merge_refuted : exists fp o t d it, dec_impl fp o t d it <> merge o 
 Proof. exact merge_refuted. Qed.
 Print Assumptions C19_merge_refuted.
 
-(* PATHS: the generated fast-path functions and the reflection path agree on slices and maps
-   of scalars, for every stream length, previous content and option vector *)
-Theorem C19_paths_slice : forall (o : dopts) (e : ty), scalar_ty e -> forall (l : list item) (d : gv),
-  dec_fast o (TSlice e) d (IArr l) = dec_refl false o (TSlice e) d (IArr l).
-Proof. exact fast_slice_is_refl. Qed.
-Print Assumptions C19_paths_slice.
+(* the witnesses of the refutations are exactly what the guards exclude *)
+Theorem C19_guards_tight :
+  nil_ok (TStruct [([80]%N, TPtr TInt)]) (IMap [(IStr [80]%N, INil)]) = false /\
+  paths_guard true (mkDopts false true false false) (TSlice TIface) = false.
+Proof. exact guards_tight. Qed.
+Print Assumptions C19_guards_tight.
 
-Theorem C19_paths_map : forall (o : dopts) (e : ty), scalar_ty e -> forall (kvs : list (item * item)) (d : gv),
-  dec_fast o (TMap e) d (IMap kvs) = dec_refl false o (TMap e) d (IMap kvs).
-Proof. exact fast_map_is_refl. Qed.
-Print Assumptions C19_paths_map.
+(* KEEP: absent means untouched.  A struct field no key of the stream map names, a struct field
+   beyond the stream array, a map entry whose key the stream does not contain are unchanged —
+   at every struct / map the decoder reaches, whatever the field / element types *)
+Theorem C19_keep_struct : forall (fp : bool) (o : dopts) (fs : list (str * ty)) (xs : list gv) (kvs : list (item * item)) (r : gv),
+  dec_impl fp o (TStruct fs) (VStruct xs) (IMap kvs) = Ok r ->
+  exists ys, r = VStruct ys /\ forall i, ~ mentions_field fs kvs i -> nth_error ys i = nth_error xs i.
+Proof. exact keep_struct_map_top. Qed.
+Print Assumptions C19_keep_struct.
 
-(* finding F19-2: for []interface{} the fast path does not consult SliceElementReset *)
+Theorem C19_keep_struct_array : forall (fp : bool) (o : dopts) (fs : list (str * ty)) (xs : list gv) (l : list item) (r : gv),
+  dec_impl fp o (TStruct fs) (VStruct xs) (IArr l) = Ok r ->
+  exists ys, r = VStruct ys /\ forall i, length l <= i -> nth_error ys i = nth_error xs i.
+Proof. exact keep_struct_arr_top. Qed.
+Print Assumptions C19_keep_struct_array.
+
+Theorem C19_keep_map : forall (fp : bool) (o : dopts) (e : ty) (m : list (str * gv)) (kvs : list (item * item)) (r : gv),
+  dec_impl fp o (TMap e) (VMap (Some m)) (IMap kvs) = Ok r ->
+  exists m', r = VMap (Some m') /\ forall key, ~ mentions_key kvs key -> assoc key m' = assoc key m.
+Proof. exact keep_map_top. Qed.
+Print Assumptions C19_keep_map.
+
+(* PATHS: the generated fast-path functions equal the reflection path on every type they cover
+   in this universe ([]int, []string, []interface{}, map[string]int/string/interface{}), for
+   every destination, every stream item and every option vector: against the reflection path
+   of the same build unconditionally, against the build without fast paths unless
+   SliceElementReset meets []interface{} (F19-2) *)
+Theorem C19_paths : forall (o : dopts) (t : ty) (d : gv) (it : item), has_fastpath t = true ->
+  dec_fast o t d it = dec_refl true o t d it.
+Proof. exact fast_is_refl_true. Qed.
+Print Assumptions C19_paths.
+
+Theorem C19_paths_notfastpath : forall (o : dopts) (t : ty) (d : gv) (it : item), has_fastpath t = true ->
+  negb (o_slice_elem_reset o && match t with TSlice TIface => true | _ => false end) = true ->
+  dec_fast o t d it = dec_refl false o t d it.
+Proof. exact fast_is_refl_false. Qed.
+Print Assumptions C19_paths_notfastpath.
+
 Definition C19_paths_full_statement : Prop :=
   forall o t d it, has_fastpath t = true -> dec_fast o t d it = dec_refl false o t d it.
 Theorem C19_paths_refuted : exists o d it,
@@ -67,17 +112,14 @@ Theorem C19_paths_refuted : exists o d it,
 Proof. exact paths_refuted. Qed.
 Print Assumptions C19_paths_refuted.
 
-(* IDEMPOTENCE (partial: scalars, and nil at any type; containers are checked on the
-   implementation and through the model's second run in the correspondence) *)
-Theorem C19_idem_partial : forall (fp : bool) (o : dopts) (t : ty) (d : gv) (it : item) (r : gv),
-  scalar_ty t -> dec_impl fp o t d it = Ok r -> dec_impl fp o t r it = Ok r.
-Proof. exact idem_scalar. Qed.
-Print Assumptions C19_idem_partial.
-
-Theorem C19_idem_nil : forall (fp : bool) (o : dopts) (t : ty) (d : gv),
-  dec_impl fp o t (zero_of t) INil = dec_impl fp o t d INil.
-Proof. exact idem_nil. Qed.
-Print Assumptions C19_idem_nil.
+(* IDEMPOTENCE: decoding the same item a second time into the result returns the result, for
+   every type, destination and option vector (MapValueReset / SliceElementReset / InterfaceReset
+   in any combination).  Side condition forced by the proof: no stream map repeats a key
+   (nodup_keys; encoders never write a key twice) *)
+Theorem C19_idem : forall (fp : bool) (o : dopts) (it : item), nodup_keys it = true ->
+  forall (t : ty) (d r : gv), dec_impl fp o t d it = Ok r -> dec_impl fp o t r it = Ok r.
+Proof. exact idem_top. Qed.
+Print Assumptions C19_idem.
 
 (* non-vacuity: a longer existing slice is cut to the stream, a map keeps the entry the stream
    does not mention, an allocated pointer is decoded through *)
@@ -88,4 +130,12 @@ Example C19_nonvacuous :
     = Ok (VMap (Some [([97]%N, VInt 1); ([98]%N, VInt 0)])) /\
   dec_impl true o (TPtr (TStruct [([65]%N, TInt); ([66]%N, TInt)])) (VPtr (Some (VStruct [VInt 1; VInt 2]))) (IMap [(IStr [65]%N, IInt 9)])
     = Ok (VPtr (Some (VStruct [VInt 9; VInt 2]))).
+Proof. vm_compute. repeat apply conj; reflexivity. Qed.
+
+Example C19_merge_nonvacuous :
+  let t := TStruct [([65]%N, TPtr (TSlice TInt)); ([66]%N, TMap TIface)] in
+  let it := IMap [(IStr [65]%N, IArr [IInt 1; INil]); (IStr [66]%N, IMap [(IStr [107]%N, IStr [118]%N)])] in
+  nil_ok t it = true /\ paths_guard true (mkDopts true true true false) t = true /\ nodup_keys it = true /\
+  dec_impl true (mkDopts true true true false) t (VStruct [VPtr None; VMap None]) it
+  = Ok (VStruct [VPtr (Some (VSlice (Some [VInt 1; VInt 0]))); VMap (Some [([107]%N, VIface (Some (VStr [118]%N)))])]).
 Proof. vm_compute. repeat apply conj; reflexivity. Qed.
